@@ -190,19 +190,77 @@ func registerSpecModel(e *Engine) {
 		if !ok {
 			return TupleVal{nilPtr, x.errorValue("object has no key " + rs)}, true
 		}
-		// the real resolver follows chains of references to the final schema
-		for i := 0; i < 10; i++ {
-			rv, _ := getField(t, m.schemaT, "SchemaProps", "Ref")
-			nr := m.refString(rv)
-			if nr == "" {
-				break
-			}
-			nt, ok := m.lookup(nr)
-			if !ok {
-				return TupleVal{nilPtr, x.errorValue("object has no key " + nr)}, true
-			}
-			t = nt
-		}
+		// one step only: a definition that is itself a $ref is returned as such (validated against the
+		// real resolver by the native re-execution of sampled paths)
 		return TupleVal{mkPtr(&Cell{V: t}), nilIface}, true
+	}
+}
+
+// deepCopy clones a value including everything reachable through pointers, slices and maps
+func deepCopy(v Value, seen map[*Cell]*Cell) Value {
+	switch t := v.(type) {
+	case *StructVal:
+		n := &StructVal{F: make([]Value, len(t.F))}
+		for i, f := range t.F {
+			n.F[i] = deepCopy(f, seen)
+		}
+		return n
+	case *ArrayVal:
+		n := &ArrayVal{E: make([]Value, len(t.E))}
+		for i, f := range t.E {
+			n.E[i] = deepCopy(f, seen)
+		}
+		return n
+	case *PtrVal:
+		if t.R == nil {
+			return t
+		}
+		if c, ok := t.R.(*Cell); ok {
+			if nc, done := seen[c]; done {
+				return &PtrVal{Nil: t.Nil, R: nc}
+			}
+			nc := &Cell{}
+			seen[c] = nc
+			nc.V = deepCopy(c.V, seen)
+			return &PtrVal{Nil: t.Nil, R: nc}
+		}
+		return &PtrVal{Nil: t.Nil, R: &Cell{V: deepCopy(t.R.Load(), seen)}}
+	case *SliceVal:
+		if t.A == nil {
+			return t
+		}
+		vs := make([]Value, t.Len)
+		for i := range vs {
+			vs[i] = deepCopy(t.At(i), seen)
+		}
+		return &SliceVal{A: &ArrayObj{E: vs}, Len: t.Len, Cap: t.Len}
+	case *MapVal:
+		if t.M == nil {
+			return t
+		}
+		nm := &MapObj{KeyT: t.M.KeyT}
+		for _, e := range t.M.E {
+			nm.E = append(nm.E, MapEntry{K: e.K, V: deepCopy(e.V, seen)})
+		}
+		return &MapVal{M: nm}
+	case *IfaceVal:
+		if t.T == nil {
+			return t
+		}
+		return &IfaceVal{T: t.T, V: deepCopy(t.V, seen)}
+	}
+	return v
+}
+
+func registerCloneModels(e *Engine) {
+	// Pristine(): a fresh document from a JSON round trip of the current spec
+	e.intrinsics["(*github.com/go-openapi/loads.Document).Pristine"] = func(x *Exec, fn *ssa.Function, a []Value) (Value, bool) {
+		d := x.deref(a[0].(*PtrVal)).Load().(*StructVal)
+		dt := x.eng.findType("github.com/go-openapi/loads", "Document")
+		sw, _ := getField(d, dt, "spec")
+		return x.makeDocument(deepCopy(sw, map[*Cell]*Cell{})), true
+	}
+	e.intrinsics["(*github.com/go-swagger/go-swagger/generator.codeGenOpBuilder).cloneSchema"] = func(x *Exec, fn *ssa.Function, a []Value) (Value, bool) {
+		return deepCopy(a[1], map[*Cell]*Cell{}), true
 	}
 }
